@@ -231,8 +231,39 @@ Ltac py_step :=
   | |- context [scmp ?a ?b] => py_cmp3 scmp scmp_ok a b
   | |- context [pcmp N.compare (pcmp N.compare N.compare) ?a ?b] =>
       py_cmp3 (pcmp N.compare (pcmp N.compare N.compare)) N3_cmp_ok a b
+  | |- context [if ?b then _ else _] => is_var b; destruct b
+  | |- context [andb ?b _] => is_var b; destruct b
+  | |- context [andb _ ?b] => is_var b; destruct b
+  | |- context [orb ?b _] => is_var b; destruct b
+  | |- context [orb _ ?b] => is_var b; destruct b
+  | |- context [negb ?b] => is_var b; destruct b
   end.
 
 (** [py_atoms_with tac]: [tac] is an extra leaf closer. *)
 Ltac py_atoms_with tac := py_leaf; try tac; repeat (py_step; py_leaf; try tac).
 Ltac py_atoms := py_atoms_with fail.
+
+(** [py_atoms_fast]: when the atomic tests occur in the same spelling on both sides, treat them
+    as unknown booleans and check the truth table (no arithmetic reasoning; much faster).
+    [py_decide] tries that first and falls back to [py_atoms]. *)
+Ltac py_abstract :=
+  repeat match goal with
+         | |- context [String.eqb ?a ?b] => let v := fresh "t" in generalize (String.eqb a b); intro v
+         | |- context [N.eqb ?a ?b] => let v := fresh "t" in generalize (N.eqb a b); intro v
+         | |- context [N.ltb ?a ?b] => let v := fresh "t" in generalize (N.ltb a b); intro v
+         | |- context [N.leb ?a ?b] => let v := fresh "t" in generalize (N.leb a b); intro v
+         | |- context [Z.eqb ?a ?b] => let v := fresh "t" in generalize (Z.eqb a b); intro v
+         | |- context [Z.ltb ?a ?b] => let v := fresh "t" in generalize (Z.ltb a b); intro v
+         | |- context [Z.leb ?a ?b] => let v := fresh "t" in generalize (Z.leb a b); intro v
+         end.
+
+Ltac py_truth_table :=
+  repeat match goal with
+         | |- context [if ?b then _ else _] => is_var b; destruct b
+         | |- context [andb ?b _] => is_var b; destruct b
+         | |- context [orb ?b _] => is_var b; destruct b
+         | |- context [negb ?b] => is_var b; destruct b
+         end; cbn [andb orb negb]; reflexivity.
+
+Ltac py_atoms_fast := py_abstract; py_truth_table.
+Ltac py_decide := solve [py_atoms_fast] || py_atoms.
